@@ -99,8 +99,9 @@ func peerMain() {
 		case in.Method == "notifications/roots/list_changed":
 			release <- struct{}{}
 		case strings.HasPrefix(in.Method, "notifications/"):
-		case in.Method == "tools/list" && in.Params.Cursor == "next":
-			out <- outItem{b: []byte(resultText(string(in.ID), "next") + "\n")}
+		case in.Method == "tools/list" && (in.Params.Cursor == "next" || strings.HasPrefix(in.Params.Cursor, "re")):
+			// the next call, or a call a notification handler makes on its own client ("re<k>"): answered properly
+			out <- outItem{b: []byte(resultText(string(in.ID), in.Params.Cursor) + "\n")}
 		case in.Method == "tools/list":
 			idx := -1
 			fmt.Sscanf(in.Params.Cursor, "c%d", &idx)
